@@ -352,6 +352,7 @@ type spawn struct {
 	Dir   string
 	Stdin []byte
 	Env   []string
+	Argv0 string // argv[0] of the child if not the path of the binary
 }
 
 var caseSeq int64
@@ -420,6 +421,18 @@ func garble(f refamf.Fault, good, prev []byte) []byte {
 			n = len(full) - 1
 		}
 		return full[:n]
+	case "frag-zero":
+		// the message's own header, then a length determinant of C0: "zero fragments of 16K follow", which X.691 10.9.3.8
+		// does not allow - a length walker that advances by the fragment size stands still on it
+		hd := []byte{0x00, 0x1d, 0x00}
+		if len(good) >= 3 {
+			hd = append([]byte{}, good[:3]...)
+		}
+		tail := []byte{0x00, 0x00, 0x01, 0x00, 0x0a, 0x00, 0x02, 0x00, 0x01}
+		if len(good) > 5 {
+			tail = good[4:]
+		}
+		return append(append(hd, 0xc0), tail...)
 	case "cause-ext-enum":
 		// a message of the expected class and procedure whose IE list announces two elements and holds one: a Cause
 		// (id 15) whose enumerated value has its extension bit set (a value of a later release) - a decoder stops there
@@ -508,6 +521,9 @@ func converse(sp spawn, sc refamf.Scenario, limit time.Duration) *convResult {
 	connLog := filepath.Join(sp.Dir, "connect.log")
 	os.Remove(connLog)
 	cmd := exec.Command(sp.Bin, sp.Args...)
+	if sp.Argv0 != "" {
+		cmd.Args[0] = sp.Argv0
+	}
 	cmd.Dir = sp.Dir
 	cmd.ExtraFiles = []*os.File{childEnd}
 	cmd.Env = append(append(os.Environ(), "STGUTG_VERIF_AMF_FD=3", "STGUTG_VERIF_CONNECT_LOG="+connLog), sp.Env...)
